@@ -20,7 +20,7 @@ ENGINES = ["E1 nir2smt", "E3 induction + BMC from any invariant state"]
 TECHNIQUE = "inductive invariant + one symbolic step from every invariant state + BMC(count) fairness window, z3 QF_BV on the netlist; counterexamples replayed on amaranth.sim with the state forced"
 BOUNDS = {
     "quick": "count 1..6 for both arbiters; all request histories of length count from every invariant (= reachable) state",
-    "thorough": "count 1..10",
+    "thorough": "count 1..20",
 }
 OUTSIDE = ["count above the enumerated range", "count = 0", "use under EnableInserter", "fairness windows for requesters that are not held continuously",
            "the raw `grant` of OneHotRoundRobin when no request is present (it keeps the last value; only the gated grant is claimed empty)"]
@@ -32,7 +32,7 @@ W = 8
 
 
 def configs(tier, seed):
-    hi = 6 if tier == "quick" else 10
+    hi = 6 if tier == "quick" else 20
     return [dict(cls=c, count=n) for n in range(1, hi + 1) for c in ("OneHotRoundRobin", "RoundRobin")]
 
 
